@@ -629,6 +629,17 @@ class Run:
             if lv[0] != "tmp":
                 self._save(lv, new)
             return new
+        if name in ("__builtin_mul_overflow", "__builtin_add_overflow", "__builtin_sub_overflow") and len(args) == 3:
+            # checked arithmetic: *res = a op b; the call's value says whether that overflowed
+            val = self.binop({"mul": "*", "add": "+", "sub": "-"}[name.split("_")[3]], ts[0], ts[1])
+            tgt = args[2]
+            while tgt is not None and tgt.get("k") in ("cast", "paren"):
+                tgt = tgt["e"]
+            if tgt is not None and tgt.get("k") == "un" and tgt.get("op") == "&":
+                lv = self.lvalue(tgt["e"], fr)
+                if lv[0] != "tmp":
+                    self._save(lv, val)
+            return ("ap", name, ts[0], ts[1])
         self.havoc_outargs(n, args, ts, fr, name)
         return ("ap", name,) + tuple(ts)
 
